@@ -104,13 +104,21 @@ def run(tier):
     # with different content), 1 descends, 0 ascends
     warm = [''] + ['1'] * 17
     inputs = ['2', '5', '1', '2', '0', '5', '1', '1', '2'][:nstates + 2]
-    sess, neigh = 'alice', 'bob'
+    # (two subscriber-style ids that differ in one punctuation character: different sessions, different records)
+    sess, neigh = '254700000001:7', '254700000001_7'
     base = os.path.join(d, 'base')
     os.makedirs(base)
     result_of(vh(['fs-req', base, neigh, '']))
     result_of(vh(['fs-req', base, neigh, '1']))
+    neigh0 = result_of(vh(['fs-load', base, neigh]))
     for x in warm:
         result_of(vh(['fs-req', base, sess, x]))
+    neigh1 = result_of(vh(['fs-load', base, neigh]))
+    if proj(neigh0) != proj(neigh1) or not os.path.exists(os.path.join(base, '@' + neigh)) or not os.path.exists(os.path.join(base, '@' + sess)):
+        out.violation('C12_OthersUntouched: serving session %r changed the stored record of session %r (before: %s, after: %s; files: %s)' % (
+            sess, neigh, json.dumps(proj(neigh0))[:200], json.dumps(proj(neigh1))[:200], sorted(os.listdir(base))),
+            dict(property=PID, kind='fs-neighbour', session=sess, neighbour=neigh, inputs=warm, before=neigh0, after=neigh1))
+        return out.finish()
     deep = result_of(vh(['fs-load', base, sess]))
     if not deep['ok'] or len(deep['path']) < 17:
         out.violation('C12_Atomic: a session %d levels deep, saved completely, is not found complete by a fresh process (%s): the engine would start a new session' % (
